@@ -189,7 +189,7 @@ theorem parseClass_rest_suffix (fl : FnFlags) :
 /-- one step of tokenisation, with `toks` on the remainders -/
 theorem toks_cons (fl : FnFlags) (pc : Nat) (p1 : List Nat) :
     toks fl (pc :: p1) =
-      if pc = cStar then .star (p1.head? == some cDot) :: toks fl p1
+      if pc = cStar then .star (dotNext fl p1) :: toks fl p1
       else if pc = cQuest then .any :: toks fl p1
       else if pc = cLB then
         (match parseClass fl (p1.length + 2)
@@ -236,6 +236,30 @@ theorem toks_cons (fl : FnFlags) (pc : Nat) (p1 : List Nat) :
 
 theorem toks_nil (fl : FnFlags) : toks fl [] = [] := rfl
 
+/-- a `*` whose `dotNext` mark is set is followed by the token of a literal period -/
+theorem dotNext_toks (fl : FnFlags) (p1 : List Nat) (h : dotNext fl p1 = true) :
+    ∃ p2, toks fl p1 = .lit cDot :: toks fl p2 := by
+  unfold dotNext at h
+  cases p1 with
+  | nil => simp at h
+  | cons q p2 =>
+    by_cases hq : q = cDot
+    · subst hq
+      exact ⟨p2, by rw [toks_cons]; simp [cDot, cStar, cQuest, cLB, cBSl]⟩
+    · have hq' : ((some q : Option Nat) == some cDot) = false := by simp [hq]
+      simp only [List.head?_cons, hq', Bool.false_or, Bool.and_eq_true, beq_iff_eq, Option.some.injEq,
+        Bool.not_eq_eq_eq_not, Bool.not_true, List.drop_succ_cons, List.drop_zero] at h
+      obtain ⟨⟨hb, hne⟩, hd⟩ := h
+      subst hb
+      cases p2 with
+      | nil => simp at hd
+      | cons e p3 =>
+        simp only [List.head?_cons, Option.some.injEq] at hd
+        subst hd
+        refine ⟨p3, ?_⟩
+        rw [toks_cons]
+        simp [cStar, cQuest, cLB, cBSl, hne]
+
 theorem okWild_of_not_disallow (fl : FnFlags) (prev : Option Nat) (x : Nat) (r : List Nat)
     (h : disallow fl ⟨prev, x :: r⟩ = false) : okWild fl x = true := by
   unfold disallow at h
@@ -265,11 +289,11 @@ theorem retry_sound (fl : FnFlags) (G : Prop) (f : Nat)
       (∀ c ∈ p, c ≠ 0) → (∀ c ∈ s.rest, c ≠ 0) →
       (∀ rp skip, retry = some (rp, skip) → (∀ c ∈ rp, c ≠ 0) ∧ (∀ c ∈ skip.rest, c ≠ 0)) →
       (Matches fl (toks fl p) s.rest → G) →
-      (∀ rp skip, retry = some (rp, skip) → Matches fl (.star (rp.head? == some cDot) :: toks fl rp) skip.rest → G) →
+      (∀ rp skip, retry = some (rp, skip) → Matches fl (.star (dotNext fl rp) :: toks fl rp) skip.rest → G) →
       wfn fl f p s retry = 0 → G)
     (s : SPos) (retry : Option (List Nat × SPos))
     (hr0 : ∀ rp skip, retry = some (rp, skip) → (∀ c ∈ rp, c ≠ 0) ∧ (∀ c ∈ skip.rest, c ≠ 0))
-    (I2 : ∀ rp skip, retry = some (rp, skip) → Matches fl (.star (rp.head? == some cDot) :: toks fl rp) skip.rest → G)
+    (I2 : ∀ rp skip, retry = some (rp, skip) → Matches fl (.star (dotNext fl rp) :: toks fl rp) skip.rest → G)
     (h : (match retryStep fl s retry with
           | .inl r => r
           | .inr (p', s', retry') => wfn fl f p' s' retry') = 0) : G := by
@@ -333,7 +357,7 @@ theorem wfn_sound (fl : FnFlags) (G : Prop) : ∀ (f : Nat) (p : List Nat) (s : 
       (∀ c ∈ p, c ≠ 0) → (∀ c ∈ s.rest, c ≠ 0) →
       (∀ rp skip, retry = some (rp, skip) → (∀ c ∈ rp, c ≠ 0) ∧ (∀ c ∈ skip.rest, c ≠ 0)) →
       (Matches fl (toks fl p) s.rest → G) →
-      (∀ rp skip, retry = some (rp, skip) → Matches fl (.star (rp.head? == some cDot) :: toks fl rp) skip.rest → G) →
+      (∀ rp skip, retry = some (rp, skip) → Matches fl (.star (dotNext fl rp) :: toks fl rp) skip.rest → G) →
       wfn fl f p s retry = 0 → G := by
   intro f
   induction f with
